@@ -10,7 +10,6 @@
 # information at https://github.com/ddsmt/ddSMT/blob/master/LICENSE.
 
 import io
-import textwrap
 import typing
 
 from .nodes import Node
@@ -112,31 +111,48 @@ def parse_smtlib(text: str):  # noqa: C901
                 yield token
 
 
-def __write_smtlib(file: typing.TextIO, expr: Node):
-    """Write the given smtlib expression in one line into the file object."""
+def __write_smtlib(file: typing.TextIO, expr: Node, width: int = None):
+    """Write the given smtlib expression into the file object.
+
+    The expression is written in one line, unless ``width`` is given: then a
+    line break (plus indentation) is used as separator between two tokens
+    whenever the next token would exceed ``width`` columns. Lines are only
+    ever broken between tokens.
+    """
     visit = [expr]
     needs_space = False
+    col = 0
     while visit:
         ex = visit.pop()
         if ex is None:
             file.write(')')
+            col += 1
             needs_space = True
             continue
 
         if needs_space:
-            file.write(' ')
+            size = len(ex.data) if ex.is_leaf() else 1
+            if width is not None and col + 1 + size > width:
+                file.write('\n  ')
+                col = 2
+            else:
+                file.write(' ')
+                col += 1
 
         if ex.is_leaf():
             if ex.data == '':
                 continue
             if ex.data[0] == ';':
                 file.write(f'\n{ex.data}\n')
+                col = 0
             else:
                 file.write(ex.data)
+                col += len(ex.data)
             needs_space = True
             continue
 
         file.write('(')
+        col += 1
         needs_space = False
         visit.append(None)
         visit.extend(x for x in reversed(ex.data))
@@ -175,10 +191,11 @@ def __write_smtlib_pretty(file: typing.TextIO, expr: Node):
                 indent += '  '
 
 
-def __write_smtlib_str(expr: Node):
-    """Write the given smtlib expression in one line to a string."""
+def __write_smtlib_str(expr: Node, width: int = None):
+    """Write the given smtlib expression to a string (in one line, or wrapped
+    at ``width`` columns)."""
     f = io.StringIO()
-    __write_smtlib(f, expr)
+    __write_smtlib(f, expr, width)
     return f.getvalue()
 
 
@@ -198,15 +215,9 @@ def write_smtlib(file: typing.TextIO, exprs: typing.List[Node]):
         for expr in exprs:
             __write_smtlib_pretty(file, expr)
     else:
-        # regular writeing
-        lines = [__write_smtlib_str(expr) for expr in exprs]
-        if options.args().wrap_lines:
-            # wrap every line
-            lines = map(
-                lambda line: textwrap.wrap(
-                    line, width=78, subsequent_indent='  '), lines)
-            # and flatten the list
-            lines = [sub for line in lines for sub in line]
+        # regular writing, wrap lines between tokens if requested
+        width = 78 if options.args().wrap_lines else None
+        lines = [__write_smtlib_str(expr, width) for expr in exprs]
         for line in lines:
             file.write(line)
             file.write('\n')
